@@ -16,6 +16,7 @@
    ended: corresponded, not a theorem); the restart path after earlier chunks were consumed LOSES data on the unchanged code
    (known finding S3 - the model reproduces it). LZMA layers and the time-based check are outside the model. -/
 import HtpModel.Conn.Res
+import HtpModel.Pinned.Eq
 
 namespace Htp.C07
 open Htp Htp.Conn Htp.Gen
@@ -125,5 +126,9 @@ theorem C07_failed_inflate_passes_chunk (cfg : Cfg) (req : Bool) (uid fuel : Nat
 /-- non-vacuity: a two-token header under the default limit of two layers builds two layers; a third token is cut off -/
 example : ceChain {} (b!"gzip, deflate") = [2, 3] ∧ ceChain {} (b!"gzip, deflate, gzip") = [2, 3] := by decide
 example : deliver 1000 [(10, 8192), (10, 8192), (10, 8192), (10, 8192)] 0 = 24576 := by decide
+
+/-- **C07 (the constants are the reviewed ones)**: every constant the translator reads from the current source - among them the compression constants (bomb ratio and limit, buffer size, layer limits) -
+    equals its reviewed snapshot (lean/HtpModel/Pinned); the model follows a regenerated constant, so this is what notices a changed one -/
+theorem C07_constants_pinned : Htp.Pinned.ConstantsPinned := Htp.Pinned.constants_pinned
 
 end Htp.C07
